@@ -10,7 +10,11 @@ Tie        : translator (GenRepoint) + correspondence
                histories  random operation histories (append, multi-op transaction, RE-REGISTRATION of already
                           listed data files -- across commits, inside one append_files call, under either
                           spelling -- delete_files in every spelling, expire_snapshots, delete_snapshot,
-                          retention / previous-versions-max properties, garbage_collect, reopen), plus
+                          retention / previous-versions-max properties, garbage_collect, reopen, VERSION-POINTER
+                          FAULTS between operations: legacy numeric / padded / dangling / ahead / missing / empty /
+                          garbage / non-UTF-8 pointer, and the newest version file lost while the pointer naming it
+                          survives; the reader resolves the current version independently as "named file if it
+                          exists, else highest version on disk"), plus "pointer" histories (a fault before most commits), plus
                           "shape" histories (few files registered over and over, then deleted) on the real library (local backend) under a scripted
                           clock (equal / decreasing timestamps) and seeded uuid4; after EVERY step the
                           metadata JSON and manifests, read by an independent reader (json + fastavro), must
@@ -51,7 +55,7 @@ LEVEL = "proof"
 THEOREMS = [
     "C15_wf_invariant", "C15_seq_in_log_order", "C15_last_seq_mono", "C15_no_abort", "C15_repoint_nearest",
     "C15_nearest_is_ancestor", "C15_repoint_cycle", "C15_current_kept", "C15_delete_exact", "C15_entries_provenance",
-    "C15_repoint_all", "C15_txn_files", "C15_delete_complete", "C15_txn_delete_complete", "C15_mlog_ok", "C09_by_timestamp", "C09_delete_current", "C09_by_id",
+    "C15_repoint_all", "C15_txn_files", "C15_delete_complete", "C15_txn_delete_complete", "C15_mlog_ok", "C15_mlog_names_superseded", "C09_by_timestamp", "C09_delete_current", "C09_by_id",
 ]
 REQ = ["DS.Model.MetaBase", "DS.Gen.GenRepoint", "DS.Model.Meta"]
 
@@ -1570,12 +1574,27 @@ CORPUS: List[Dict[str, Any]] = [
              {"k": "txn", "ops": [["append", [["re", 1, 1], ["re", 0, 0]]]], "t": 1001, "tu": 1002},
              {"k": "txn", "ops": [["delete", [[1, 0]]], ["append", [["re", 0, 1]]]], "t": 1002, "tu": 1002},
              {"k": "txn", "ops": [["delete", [[1, 1], [2, 0]]]], "t": 1002, "tu": 1003}], "uuid_seed": 4, "t0": 1000},
+    # seed C15-f (the superseded version taken from the pointer's bytes instead of the resolved current version):
+    # a legacy numeric pointer, a pointer to a version that was never committed, and the newest version file lost
+    # while the pointer naming it survives -- each followed by commits of different kinds
+    {"ops": [{"k": "txn", "ops": [["append", ["auto"]]], "t": 1000, "tu": 1000},
+             {"k": "ptr", "form": "legacy"},
+             {"k": "txn", "ops": [["append", ["auto"]]], "t": 1000, "tu": 1001},
+             {"k": "ptr", "form": "ahead"},
+             {"k": "delsnap", "ref": 0, "pick": "current", "tu": 1002},
+             {"k": "ptr", "form": "dangling"},
+             {"k": "txn", "ops": [["expire", 5000]], "t": 1000, "tu": 1002}], "uuid_seed": 5, "t0": 1000},
+    {"ops": [{"k": "txn", "ops": [["append", ["auto"]]], "t": 1000, "tu": 1000},
+             {"k": "txn", "ops": [["append", ["auto"]]], "t": 1001, "tu": 1001},
+             {"k": "lose"},
+             {"k": "txn", "ops": [["append", ["auto"]]], "t": 1002, "tu": 1002},
+             {"k": "setmax", "v": "1", "tu": 1003}], "uuid_seed": 6, "t0": 1000},
 ]
 
 
 def run(ctx) -> None:
     ctx.rule = ("histories: random operation lists over {append, multi-op transaction, re-registration of listed files, delete_files (3 spellings), expire, "
-                "delete_snapshot, retention property, metadata-log bound, empty transaction, garbage_collect} with scripted "
+                "delete_snapshot, retention property, metadata-log bound, empty transaction, garbage_collect, version-pointer faults, lost newest version} with scripted "
                 "equal/decreasing/arbitrary timestamps; state compared after every step; a history is distinct by its full op list. "
                 "forests: every parent map on <= 5 snapshots (cycles, self loops), maps with None/-1/dangling parents, duplicated ids, "
                 "each x every kept subset")
